@@ -120,7 +120,10 @@ def evaluate(ctx, part0, sessions, contents, refs, do_minimize=True, tag=None):
         for name, (hits, *_rest) in r['memo'].items():
             memo_hits[name] = memo_hits.get(name, 0) + hits
         found = [(i, 'impure', why) for i, why in S.impure_steps(s, r, refs)]
-        unknown = {i for i, _c, why in found if 'no reference' in why}   # reported once, as impure
+        # a Monte-Carlo work package as a whole must also leave cwd/argv alone (the steps above cover its client calls)
+        found += [(i, 'restore', 'around the whole work package') for i, (op, b) in enumerate(zip(s['ops'], r['obs']))
+                  if op[0] == 'mc' and (b['cb'], b['ab']) != (b['ca'], b['aa'])]
+        unknown = {i for i, _c, why in found if why and 'no reference' in why}   # reported once, as impure
         found += [(i, c, None) for i, c in cs if c in PROPERTY_CODES and not (c == 'refine' and i in unknown)]
         seen = set()
         for i, code, why in sorted(found, key=lambda x: x[0]):
@@ -172,26 +175,30 @@ def _still(ctx, cands, contents, refs, key):
 
 
 def build_pool(ctx, n, with_mixes=True):
+    """All input texts of the run and their fresh-process references, computed in ONE wave of worker processes."""
     texts, failing = S.content_pool(ctx, n)
     contents = texts + failing
+    nbase = len(contents)
+    # requests built from a base file + params, Monte-Carlo iteration inputs: over the two hand-written bases, one
+    # generated configuration and one failing request
+    mixes = S.combos(contents, [0, 1, 2, len(texts)]) if with_mixes else []
+    contents.append(S.src_example_text())       # what a relative Examples/salton_sea.txt names in the source directory
+    extra = {'src_content': len(contents) - 1, 'hip_ids': list(range(len(contents), len(contents) + len(S.HIP_TEXTS)))}
+    contents += S.HIP_TEXTS
+    extra['mcs'] = S.mc_combos(contents, [0, 1], extra['hip_ids'][:1])
+    hipc = set(extra['hip_ids']) | {m[3] for m in extra['mcs'] if m[0] == 'h'}
     refs = S.References(ctx, contents)
-    refs.ensure(range(len(contents)))
+    refs.ensure_pairs([('g', c) for c in range(len(contents)) if c not in hipc] + [(k, c) for c in sorted(hipc) for k in (1, 2)])
     seen, ok_ids, bad_ids = set(), [], []
-    for c in range(len(contents)):
+    for c in range(nbase):
         r = refs.of(c)
         if r[0] == 'ret' and r[1] not in seen:
             seen.add(r[1])
             ok_ids.append(c)
         elif r[0] != 'ret':
             bad_ids.append(c)
-    mixes = S.combos(contents, ok_ids[:2] + ok_ids[-1:] + bad_ids[:1]) if with_mixes else []
-    contents.append(S.src_example_text())       # what a relative Examples/salton_sea.txt names in the source directory
-    extra = {'src_content': len(contents) - 1, 'hip_ids': list(range(len(contents), len(contents) + len(S.HIP_TEXTS)))}
-    geo = len(contents)
-    contents += S.HIP_TEXTS
-    extra['mcs'] = S.mc_combos(contents, ok_ids[:2], extra['hip_ids'][:1])
-    refs.ensure([c for c in range(len(contents)) if c < geo or any(m[3] == c and m[0] == 'g' for m in extra['mcs'])])
-    ctx.count('pool', evaluations=len(contents), contents_ok=len(ok_ids), contents_failing=len(bad_ids), base_plus_params=len(mixes),
+    ctx.count('pool', evaluations=len(refs.ref), contents_ok=len(ok_ids), contents_failing=len(bad_ids), base_plus_params=len(mixes),
+              monte_carlo_inputs=len(extra['mcs']), hip_ra_inputs=len(S.HIP_TEXTS),
               failing_kinds={refs.of(c)[2][:60]: 1 for c in bad_ids})
     return contents, refs, ok_ids, bad_ids, mixes, extra
 
@@ -299,7 +306,7 @@ def correspondence(ctx, proofs_ok=True):
     import time
     t0, marks = time.time(), []
     entries = c08_memo.scan()
-    contents, refs, ok_ids, bad_ids, mixes, extra = build_pool(ctx, 12 if ctx.quick else 36)
+    contents, refs, ok_ids, bad_ids, mixes, extra = build_pool(ctx, 10 if ctx.quick else 36)
     marks.append(('pool', round(time.time() - t0)))
     memo_hits = {}
     sessions = []
@@ -331,7 +338,7 @@ def correspondence(ctx, proofs_ok=True):
 
 def search(ctx):
     """Only model/proof disagreements so far: look for a history on which the PROPERTY fails on the real code."""
-    contents, refs, ok_ids, bad_ids, mixes, extra = build_pool(ctx, 12)
+    contents, refs, ok_ids, bad_ids, mixes, extra = build_pool(ctx, 10)
     rnd = ctx.rng
     sessions = [S.gen_session(rnd, ok_ids, bad_ids, rnd.randint(15, 50), ['0', '1', str(rnd.randrange(2, 2 ** 32))], mixes, **extra)
                 for _ in range(ctx.n(96, 480))]
